@@ -21,6 +21,10 @@
 //!     element must contribute nothing. Observed on the PRINTED transaction
 //!     (`load_from_yaml` -> `select` -> `import::import` -> `Txn::to_double_entry` -> `DisplayContext::as_display`,
 //!     i.e. the body of `ImportCmd::run` without the file system).
+//!  B2. camt053 field coverage: one rule per (matcher field, value token) for all 9 text fields (creditor / debtor name,
+//!     ultimate creditor / debtor, creditor / debtor account id, remittance info, transaction info, entry info) and per (domain
+//!     field, code), x 2 records whose fields all hold DIFFERENT values in swapped positions, so that reading a sibling
+//!     field (creditor vs debtor, ultimate vs plain) flips the match.
 //!  C. end to end: every ordered pair of rules split over two layered documents (`bank/`, `bank/acct`), both
 //!     document orders, x 7 records, through `okane::cmd::ImportCmd::run` on real files; plus every rule x 7 records with
 //!     a second document whose `path` is exactly the source path given to ImportCmd.
@@ -87,6 +91,10 @@ enum F {
     AddtlTxInfo,
     AddtlEntryInfo,
     RmtInfo,
+    CreditorAccountId,
+    DebtorAccountId,
+    UltimateCreditorName,
+    UltimateDebtorName,
     DomainCode,
     DomainFamily,
     DomainSubFamily,
@@ -102,6 +110,10 @@ impl F {
             F::AddtlTxInfo => "additional_transaction_info",
             F::AddtlEntryInfo => "additional_entry_info",
             F::RmtInfo => "remittance_unstructured_info",
+            F::CreditorAccountId => "creditor_account_id",
+            F::DebtorAccountId => "debtor_account_id",
+            F::UltimateCreditorName => "ultimate_creditor_name",
+            F::UltimateDebtorName => "ultimate_debtor_name",
             F::DomainCode => "domain_code",
             F::DomainFamily => "domain_family",
             F::DomainSubFamily => "domain_sub_family",
@@ -116,6 +128,10 @@ impl F {
             F::AddtlTxInfo => config::RewriteField::AdditionalTransactionInfo,
             F::AddtlEntryInfo => config::RewriteField::AdditionalEntryInfo,
             F::RmtInfo => config::RewriteField::RemittanceUnstructuredInfo,
+            F::CreditorAccountId => config::RewriteField::CreditorAccountId,
+            F::DebtorAccountId => config::RewriteField::DebtorAccountId,
+            F::UltimateCreditorName => config::RewriteField::UltimateCreditorName,
+            F::UltimateDebtorName => config::RewriteField::UltimateDebtorName,
             F::DomainCode => config::RewriteField::DomainCode,
             F::DomainFamily => config::RewriteField::DomainFamily,
             F::DomainSubFamily => config::RewriteField::DomainSubFamily,
@@ -813,6 +829,19 @@ fn source_text(veh: Veh, rec: &Rec) -> String {
                     if let Some(c) = rec.field(F::CreditorName) {
                         s.push_str(&format!("<Cdtr><Nm>{}</Nm></Cdtr>", xml_escape(c)));
                     }
+                    // both forms of an account id and of a party are used
+                    if let Some(a) = rec.field(F::CreditorAccountId) {
+                        s.push_str(&format!("<CdtrAcct><Id><IBAN>{}</IBAN></Id></CdtrAcct>", xml_escape(a)));
+                    }
+                    if let Some(a) = rec.field(F::DebtorAccountId) {
+                        s.push_str(&format!("<DbtrAcct><Id><Othr><Id>{}</Id></Othr></Id></DbtrAcct>", xml_escape(a)));
+                    }
+                    if let Some(n) = rec.field(F::UltimateDebtorName) {
+                        s.push_str(&format!("<UltmtDbtr><Nm>{}</Nm></UltmtDbtr>", xml_escape(n)));
+                    }
+                    if let Some(n) = rec.field(F::UltimateCreditorName) {
+                        s.push_str(&format!("<UltmtCdtr><Pty><Nm>{}</Nm></Pty></UltmtCdtr>", xml_escape(n)));
+                    }
                     s.push_str("</RltdPties>");
                 }
                 if let Some(i) = rec.field(F::RmtInfo) {
@@ -1505,6 +1534,55 @@ fn run(ctx: &mut Ctx) {
             fold_case(ctx, Veh::Camt, &rules, rec);
         }
     });
+    // ---------------- family B2: every camt053 matcher field against records whose fields all hold DIFFERENT values ----------------
+    // One rule `{field: (?P<payee>TOKEN.*)}` + account per (regex field, token), one rule `{field: CODE}` per (domain field, code);
+    // each token is the value of exactly one field of a record, and the two records hold the tokens in swapped
+    // (creditor <-> debtor, ultimate <-> plain, account ids, info texts) positions: reading a sibling field flips the match.
+    let b2_fields = [F::CreditorName, F::DebtorName, F::UltimateCreditorName, F::UltimateDebtorName, F::CreditorAccountId, F::DebtorAccountId, F::RmtInfo, F::AddtlTxInfo, F::AddtlEntryInfo];
+    let b2_tokens = ["Alpha Shop", "Beta Person", "Gamma Holding", "Delta Family", "CH1111", "CH2222", "Epsilon invoice", "Zeta info", "Eta entry"];
+    let b2_layouts: [[usize; 9]; 2] = [[0, 1, 2, 3, 4, 5, 6, 7, 8], [1, 0, 3, 2, 5, 4, 7, 8, 6]];
+    let b2_domains: [[&'static str; 3]; 2] = [["PMNT", "ICDT", "OTHR"], ["PMNT", "RCDT", "SALA"]];
+    let b2_recs: Vec<Rec> = (0..2)
+        .map(|k| {
+            let mut f: Vec<(F, &'static str)> = vec![(F::DomainCode, b2_domains[k][0]), (F::DomainFamily, b2_domains[k][1]), (F::DomainSubFamily, b2_domains[k][2])];
+            for (i, fd) in b2_fields.iter().enumerate() {
+                f.push((*fd, b2_tokens[b2_layouts[k][i]]));
+            }
+            Rec { payee: None, fields: f, credit: k == 1, acct_ref: false, no_details: false, no_domain: false, no_parties: false }
+        })
+        .collect();
+    let mut b2_rules: Vec<&'static RuleDef> = Vec::new();
+    for fd in b2_fields {
+        for tok in b2_tokens {
+            let pat: &'static str = Box::leak(format!("^(?P<payee>{}.*)$", tok.to_lowercase()).into_boxed_str());
+            let elem: Elem = Box::leak(vec![(fd, pat)].into_boxed_slice());
+            let elems: &'static [Elem] = Box::leak(vec![elem].into_boxed_slice());
+            let name: &'static str = Box::leak(format!("{}~{}", fd.yaml(), tok).into_boxed_str());
+            b2_rules.push(Box::leak(Box::new(RuleDef { name, or_list: false, elems, pending: false, payee: None, account: Some("Expenses:Hit") })));
+        }
+    }
+    for (fd, codes) in [(F::DomainCode, vec!["PMNT"]), (F::DomainFamily, vec!["ICDT", "RCDT", "RDDT"]), (F::DomainSubFamily, vec!["OTHR", "SALA", "AUTT"])] {
+        for code in codes {
+            let elem: Elem = Box::leak(vec![(fd, code)].into_boxed_slice());
+            let elems: &'static [Elem] = Box::leak(vec![elem].into_boxed_slice());
+            let name: &'static str = Box::leak(format!("{}={}", fd.yaml(), code).into_boxed_str());
+            b2_rules.push(Box::leak(Box::new(RuleDef { name, or_list: false, elems, pending: false, payee: None, account: Some("Expenses:Hit") })));
+        }
+    }
+    check_alphabet(&b2_rules, false);
+    let mut b2_cases = 0u64;
+    for r in &b2_rules {
+        for rec in &b2_recs {
+            b2_cases += 1;
+            if !ctx.next_is_mine() {
+                ctx.skip_cases(1);
+                continue;
+            }
+            fold_case(ctx, Veh::Camt, &[*r], rec);
+        }
+    }
+    ctx.fact("B2_rules", b2_rules.len() as u64);
+    ctx.fact("B2_cases", b2_cases);
     ctx.fact("B_max_rule_list_length", maxlen as u64);
     ctx.fact("B_cases", b_cases);
 
